@@ -50,6 +50,13 @@ class Interp:
         self.hooks = []  # observers: fn(event, **kw)
         self.root_name = None
         self.call_log = []
+        self.site_results = {}
+        self.children = {}
+        self.cur_frame = None
+        from . import join as _j
+
+        _j.INTERP = self
+        self.contracts = {}
 
     # ------------------------------------------------------------------ types
     def int_range(self, t):
@@ -87,19 +94,43 @@ class Interp:
 
     # ------------------------------------------------------------------ obligations
     def oblige(self, kind, inst, bb, detail, ok, S, where=None, extra=None):
-        key = (inst["name"], kind, detail)
-        o = self.obls.get(key)
-        if o is None:
-            o = self.obls[key] = Obligation(key, kind, inst["name"], where, detail)
-        o.contexts += 1
-        if ok:
-            o.ok += 1
-        else:
-            if len(o.fail) < 3:
-                o.fail.append({"context": " → ".join(self.context()), "state": extra or ""})
+        """Record the verdict of an obligation for the current activation.  A block may be visited
+        several times before the fixpoint is reached; only the verdict of its last visit (the one
+        on the fixpoint state) counts, so results are keyed by (activation frame, block, site)."""
+        frame = self.cur_frame
+        self.site_results.setdefault(frame, {})[(bb, kind, detail)] = (inst["name"], where, ok, None if ok else {"context": " → ".join(self.context()), "state": extra or ""})
+        return ok
+
+    def forget_block(self, frame, bi):
+        """Drop verdicts recorded by an earlier visit of block bi of `frame`, including those of
+        all activations nested in calls made by that block."""
+        d = self.site_results.get(frame)
+        if d:
+            for k in [k for k in d if k[0] == bi]:
+                del d[k]
+        stack = list(self.children.pop((frame, bi), ()))
+        while stack:
+            fr = stack.pop()
+            self.site_results.pop(fr, None)
+            for key in [k for k in self.children if k[0] == fr]:
+                stack.extend(self.children.pop(key))
+
+    def fold_site_results(self):
+        flat = [((frame,) + k, v) for frame, d in self.site_results.items() for k, v in d.items()]
+        for (frame, bb, kind, detail), (iname, where, ok, info) in flat:
+            key = (iname, kind, detail)
+            o = self.obls.get(key)
+            if o is None:
+                o = self.obls[key] = Obligation(key, kind, iname, where, detail)
+            o.contexts += 1
+            if ok:
+                o.ok += 1
+            elif len(o.fail) < 3:
+                o.fail.append(info)
             else:
                 o.fail.append(None)
-        return ok
+        self.site_results = {}
+        self.children = {}
 
     def context(self):
         return [self.root_name or "?"] + [n for n in self.stack]
@@ -122,6 +153,8 @@ class Interp:
         if "fn" in v:
             return Fn({"def": v["fn"], "key": v.get("key"), "args": v.get("args", []), "ty": tid})
         if "fnptr" in v:
+            if v.get("closure"):
+                return FnPtr(Struct("closure:%s@" % v.get("key"), []), tid)
             return FnPtr(Fn({"def": v["fnptr"], "key": v.get("key"), "args": []}), tid)
         if "ref" in v:
             inner_t = t["to"] if t["k"] in ("ref", "ptr") else None
@@ -139,7 +172,7 @@ class Interp:
             return self.cv_adt(v, tid, S, key)
         if "zst" in v:
             if t["k"] == "closure":
-                return Struct("closure:" + t["path"], [])
+                return Struct("closure:%s@" % t["key"], [])
             if t["k"] == "tuple" and not t["elems"]:
                 return Struct("tuple", [])
             return Opaque(tid)
@@ -222,7 +255,7 @@ class Interp:
         if k == "fndef":
             return Fn({"def": t["path"], "key": t.get("key"), "args": t.get("args", [])})
         if k == "closure":
-            return Struct("closure:" + t["path"], [self.top(u, S, key + (i,), depth + 1) for i, u in enumerate(t["upvars"])])
+            return Struct("closure:%s@" % t["key"], [self.top(u, S, key + (i,), depth + 1) for i, u in enumerate(t["upvars"])])
         if k == "never":
             return BOT
         return Opaque(tid)
